@@ -33,7 +33,7 @@ CHECKS = {
             "Held (modulo mechanism-keyed known findings) on every Python-accepted structural head x {distinguishing, boundary, random} states and on seeded programs compared after every step. Known findings are matched by mechanism predicate + field-subset, so any other disagreement is a fresh violation.",
             "Python and Rust run in separate processes connected by JSONL vectors; flat device-free buses; F bits 2-7 and TEMPs not compared.", "DESIGN.md 3/C06"),
     "C07": ("exploration",
-            "hidden-state differential monitors on both real cores (fresh vs long-lived core with poisoned TEMPs / call bookkeeping / perf counters), read-before-write taint monitor on the register file, split-run comparison, 8-thread stress of the Rust process-wide statics, two-process digest comparison",
+            "hidden-state differential monitors on both real cores (fresh vs long-lived core with poisoned TEMPs / call bookkeeping / perf counters / a low-power flag left by earlier HALT), same-address twin re-execution (last instruction byte changed) against decode caches, read-before-write taint monitor on the register file, split-run comparison, 8-thread stress of the Rust process-wide statics, two-process digest comparison",
             "Held on every sampled head executed after an arbitrary history of earlier cases with poisoned hidden state, on programs run continuously vs through CPUStepper snapshots (Python) and vs executor/state rebuilt from architectural registers every 1/3/7 steps (Rust), on 8 concurrent Rust runtimes with yield injection, and across two fresh processes with different hash seeds.",
             "Architectural outputs only; the Rust ASan/TSan/Miri runtimes are not available offline, so the thread stress is an oracle over results, not a race detector.", "DESIGN.md 3/C07"),
     "C08": ("exploration",
@@ -54,12 +54,12 @@ CHECKS = {
             "Device windows without installed handlers behave as plain memory; reference knows only the applied configuration.", "DESIGN.md 3/C11"),
     "C12": ("exploration",
             "online trace checker over per-step observation records of the real PCE500Emulator and CoreRuntime (entry recognised from architectural effects, shadow frame stack for RETI, bounded-progress counter, HALT/OFF clauses) under enumerated and seeded event schedules; hook on _set_isr_bits for the KEYI clause",
-            "Held (modulo listed findings) on all event sequences up to depth 2/3 at all placements in a 10-step window for 3 base programs and on seeded runs of 50-400 steps with timers of period 1-9 cycles, key/ON events and firmware-style IMR/ISR writes: every entry had master+source enable and a pending bit, pushed [IMR,F,PC] frame correct, bit 7 cleared, RETI restored PC/F/IMR/S, eligible requests delivered within 2 boundaries, halted CPUs frozen and woken exactly by status bits.",
+            "Held (modulo listed findings) on all event sequences up to depth 2 at all placements in a 10-step window (thorough: depth 3 over a 14-event alphabet) for 3 base programs and on seeded runs of 50-400 steps over 5 main-loop shapes (busy, HALT, OFF, WAIT, master-enable toggling) and handlers ending in plain or PRE-prefixed RETI with timers of period 1-9 cycles, key/ON events and firmware-style IMR/ISR writes: every entry had master+source enable and a pending bit, pushed [IMR,F,PC] frame correct, bit 7 cleared, RETI restored PC/F/IMR/S, eligible requests delivered within 2 boundaries, halted CPUs frozen and woken exactly by status bits.",
             "Handlers start with NOP so both delivery conventions expose the frame; liveness restated as bounded progress.", "DESIGN.md 3/C12"),
     "C13": ("exploration",
-            "reference-arithmetic monitor + cross-core comparison on every tick of the real TimerScheduler.advance and TimerContext::tick_timers; icontract postcondition on advance()",
+            "reference-arithmetic monitor + cross-core comparison on every tick of the real TimerScheduler.advance and TimerContext::tick_timers; icontract postcondition on advance(); machine-level runs of both real machines with a counting hook on advance() (one fire per boundary crossed, also inside multi-cycle WAIT) and live keyboard",
             "Held on all period pairs 0..12 x 0..12 x enabled, sampled large periods, every-cycle and gap sequences with resets and snapshot/restore points: fire pattern, next targets strictly in the future, ISR bits, exactly-once on every-cycle sequences, Python == Rust.",
-            "Unit level (scheduler objects); the instruction-boundary re-phasing of CoreRuntime is covered at machine level by C12/C16.", "DESIGN.md 3/C13"),
+            "Unit level plus machine level (NOP/HALT/WAIT programs, complete small period grid incl. period 0); for gaps longer than a period the statement promises one fire and a target in the future only.", "DESIGN.md 3/C13"),
     "C14": ("exploration",
             "online clause monitor driven by the ground truth of issued operations (KIL soundness/completeness, per-key event automaton with cadence and bounded release, FIFO only-oldest-dropped, KEYI edge) on the real Python KeyboardMatrix/handler and Rust KeyboardMatrix; icontract invariant on _enqueue_event",
             "Held (modulo listed findings) on seeded adversarial histories under both polarities and 81 threshold settings, and on all histories up to length 4/5 over a 3-key/2-strobe alphabet.",
